@@ -409,8 +409,10 @@ class Phase(Angle):
         For everything else, the Quantity formatter is used.
         """
         if format_spec.endswith("f"):
-            # Check that formatting works at all...
-            test = format(self.value, format_spec)
+            # Check that formatting works at all...  (An imaginary phase has a
+            # complex value, whose two formatted parts would be miscounted.)
+            value = self.value
+            test = format(value.imag if self.imaginary else value, format_spec)
             pre, dot, post = test.partition(".")
             if post:
                 precise = self.to_string(precision=len(post))
